@@ -150,6 +150,9 @@ def _parse_cond(test, dnames):
                 return None
             lm, rm = sub_member(l, dnames), sub_member(r, dnames)
             if lm and rm:
+                # member-vs-member tests are kept in the orientation of the pair table
+                if op in FLIP and any(a == rm and b == lm for a, _o, b in PAIRS):
+                    return ("comp", (rm, FLIP[op], lm))
                 return ("comp", (lm, op, rm))
             if lm:
                 bv = bound_value(r)
